@@ -955,6 +955,10 @@ func (in *interp) write(o Op, w *wtxn) string {
 				in.viol("C09", "rev-after-reject", "%s on a table the transaction does not hold was rejected but the committed revision of that table is now %d (model %d)", opNames[o.K], r, want)
 			}
 		}
+		if in.own == "C01" {
+			// a change of the committed entry shows in every retained snapshot: C01 judges first
+			in.reaudit(false, in.step)
+		}
 		if in.own == "C09" {
 			c09()
 			c03()
